@@ -33,6 +33,7 @@ func (s *Sim) opRestart() {
 	}
 	m.count("restarts")
 	s.Restarts++
+	pre := snapshotMessages(s.B.S)
 	_ = s.B.S.Close() // stops the hooks: the store is closed cleanly
 	s.B.Shutdown()
 	s.B = s.makeBroker()
@@ -57,6 +58,7 @@ func (s *Sim) opRestart() {
 		delete(x.pendingWill, id)
 	}
 	s.restoredCheck()
+	s.compareMessages(pre, snapshotMessages(s.B.S))
 	if s.Opt.AfterRestart != nil {
 		s.Opt.AfterRestart(s)
 	}
@@ -604,6 +606,72 @@ func (s *Sim) CrashRestart(probeTopics []string) {
 				m.flag("C21/resurrected-subscription", map[string]string{"what": "delivery-to-clean-start"}, "crash during step %d: a clean-start connection for %q, whose session had ended before the crash, received a message on %q after the restart (index holds %v for that id)", s.StoppedAt, ended[i], rp.P.Topic, idx[ended[i]])
 				break
 			}
+		}
+	}
+}
+
+// snapshotMessages renders every retained message and every in-flight PUBLISH/PUBREL the broker holds in memory, field
+// by field (what a client could observe of it later: payload, QoS, retain flag, origin, creation and expiry times and
+// the publish properties), keyed by "retained <topic>" / "inflight <client id> <packet id>".
+func snapshotMessages(srv *mqtt.Server) map[string]map[string]string {
+	out := map[string]map[string]string{}
+	render := func(pk packets.Packet) map[string]string {
+		pr := pk.Properties
+		return map[string]string{
+			"type": fmt.Sprint(pk.FixedHeader.Type), "qos": fmt.Sprint(pk.FixedHeader.Qos), "retain": fmt.Sprint(pk.FixedHeader.Retain),
+			"topic": pk.TopicName, "payload": string(pk.Payload), "origin": pk.Origin, "created": fmt.Sprint(pk.Created), "expiry": fmt.Sprint(pk.Expiry),
+			"message_expiry_interval": fmt.Sprint(pr.MessageExpiryInterval), "content_type": pr.ContentType, "response_topic": pr.ResponseTopic,
+			"correlation_data": fmt.Sprintf("%x", pr.CorrelationData), "user_properties": fmt.Sprint(pr.User),
+			"payload_format": fmt.Sprint(pr.PayloadFormat, pr.PayloadFormatFlag), "subscription_identifiers": fmt.Sprint(pr.SubscriptionIdentifier),
+		}
+	}
+	for topic, pk := range srv.Topics.Retained.GetAll() {
+		if !strings.HasPrefix(topic, "$SYS") {
+			out["retained "+topic] = render(pk)
+		}
+	}
+	for id, cl := range srv.Clients.GetAll() {
+		for _, pk := range cl.VerifInflight() {
+			if pk.FixedHeader.Type == packets.Publish || pk.FixedHeader.Type == packets.Pubrel {
+				out[fmt.Sprintf("inflight %s %d", id, pk.PacketID)] = render(pk)
+			}
+		}
+	}
+	return out
+}
+
+// compareMessages: whatever message the broker held before the orderly shutdown and holds again after the restart must
+// be the same message in every field (which messages must be there at all is decided against the model in restoredCheck).
+func (s *Sim) compareMessages(pre, post map[string]map[string]string) {
+	m := s.M
+	keys := make([]string, 0, len(pre))
+	for k := range pre {
+		keys = append(keys, k)
+	}
+	sort.Strings(keys)
+	for _, k := range keys {
+		a, b := pre[k], post[k]
+		if b == nil {
+			continue
+		}
+		m.count("restored_messages_compared_field_by_field")
+		var diff []string
+		for f, v := range a {
+			if b[f] != v {
+				if f == "expiry" && (a["type"] == fmt.Sprint(packets.Pubrel) || v == "-1") {
+					continue // a PUBREL record carries no message any more; -1 is the in-memory "held back by Receive Maximum" marker, not a time
+				}
+				diff = append(diff, fmt.Sprintf("%s: %q before, %q after", f, v, b[f]))
+			}
+		}
+		if len(diff) > 0 {
+			sort.Strings(diff)
+			fields := make([]string, len(diff))
+			for i, d := range diff {
+				fields[i] = d[:strings.Index(d, ":")]
+			}
+			m.flag("C20/restored-message-differs", map[string]string{"kind": strings.Fields(k)[0], "fields": strings.Join(fields, ",")},
+				"after restart %d: %s differs from what the broker held before the shutdown: %s", s.Restarts, k, strings.Join(diff, "; "))
 		}
 	}
 }
